@@ -103,8 +103,8 @@ def main():
         specs = [sp for sp in mod.gen_specs(rng, n * 6) if not sp.get("parent") and sp.get("mode", "single") == "single" and sp.get("bs", 0) < (1 << 20)][:n]
         for sp in specs:
             f = mod.build(sp)
-            if f is None or f.size > (24 << 20):
-                continue
+            if f is None or f.size > (6 << 20):
+                continue  # the harness copies the image once per mutation under its own 1.5 GiB address-space limit: keep the bases small
             f.seek(0)
             data = f.read()
             regions = []
@@ -216,6 +216,12 @@ def main():
             evals += 1
             distinct += 1
             kind, detail = run_one(opener, mdata)
+            if kind == "memory":
+                # second opinion with the collector run first: the limit also counts what the harness itself holds
+                import gc
+
+                gc.collect()
+                kind, detail = run_one(opener, mdata)
             if kind == "timeout":
                 # a count field set to 2**31 makes cstruct parse entries until the end of the file: work proportional to the file size
                 # is bounded work, and 5 s is a heuristic that a loaded machine can exceed -- a timeout only counts when the same input still
